@@ -473,7 +473,7 @@ func (g *genState) service(name string, i int) Svc {
 	if !g.o.NoScopes {
 		s.Scope = choice.Pick(src, "sscope", []string{"", "", "shared", "contextual", "non_shared"})
 	}
-	if kind != "type" && (kind != "leaf" || s.Value != "") && src.Chance("sgetter", 1, 3) {
+	if kind != "type" && (kind != "leaf" || s.Value != "") && s.Value != g.fx("GlobalVal") && src.Chance("sgetter", 1, 3) {
 		// distinct services need distinct getters (names may differ only in case or punctuation)
 		s.Getter = "Get" + goIdent(name) + strconv.Itoa(i)
 		if src.Bool("sgettype") {
